@@ -16,8 +16,13 @@ package ringhash
 //@ func (ring *Ring) Signature() (res string)
 //@   ensures [C17] res == ring.signature
 
+// (ghost: the last look-up and its answer, so that a caller's contract can say "the name returned was looked up and is ours")
+//@ ghost var lastRingKey string
+//@ ghost var lastRingOwner string
 //@ func (ring *Ring) Get(key string) (res string)
 //@   requires [C17] ring != nil
+//@   modifies lastRingKey, lastRingOwner
+//@   ensures [assumed] lookup_recorded: lastRingKey == key && lastRingOwner == res
 //@   ensures [C17] empty: len(ring.keys) == 0 ==> res == ""
 //@   ensures [C17] member: len(ring.keys) > 0 ==> exists i int :: 0 <= i && i < len(ring.keys) && res == ring.keys[i].key
 //@   safe
